@@ -746,9 +746,11 @@ class PolyhedralTermList(TermList):  # noqa: WPS338
         logging.debug("Context: %s", context)
         if context:
             new_self = self - context
-            result = PolyhedralTermList.termlist_to_polytope(new_self, context)
+            result = PolyhedralTermList.termlist_to_polytope(
+                new_self._without_constant_terms(), context._without_constant_terms()
+            )
         else:
-            result = PolyhedralTermList.termlist_to_polytope(self, PolyhedralTermList())
+            result = PolyhedralTermList.termlist_to_polytope(self._without_constant_terms(), PolyhedralTermList())
 
         variables = result[0]
         self_mat = result[1]
@@ -766,6 +768,14 @@ class PolyhedralTermList(TermList):  # noqa: WPS338
         simplified = PolyhedralTermList.polytope_to_termlist(a_red, b_red, variables)
         logging.debug("Back to terms: \n%s", simplified)
         return simplified
+
+    def _without_constant_terms(self) -> PolyhedralTermList:
+        # A term without variables (0 <= c) carries no information if c >= 0 and is
+        # unsatisfiable otherwise; it has no row in the matrix representation.
+        for term in self.terms:
+            if not term.vars and term.constant < 0:
+                raise ValueError("The constraint {} is unsatisfiable".format(term))
+        return PolyhedralTermList([term for term in self.terms if term.vars])
 
     def refines(self, other: PolyhedralTermList) -> bool:
         """
